@@ -16,9 +16,15 @@
 (*   state/connectivity, state/trading, state/order (abstracted to kinds),  *)
 (*   state/position (abstracted to the signed net quantity)                 *)
 (*                                                                         *)
-(* World (harness/src/world2.rs): exchanges 0,1; instruments 0..4 with      *)
-(* ExOf = <<0,0,0,0,1>>; instruments 0 and 1 share an underlying, 2 shares  *)
-(* only their base asset, 3 only their quote asset.                         *)
+(* World (harness/src/world2.rs): exchanges 0,1,2; instruments 0..5 with    *)
+(* ExOf = <<0,0,0,0,1,2>>; instruments 0 and 1 share an underlying, 2       *)
+(* shares only their base asset, 3 only their quote asset; 4 and 5 are the  *)
+(* same pair on the other two exchanges (an underlying is a pair of asset   *)
+(* indices, and those are per exchange: three different underlyings).       *)
+(* THREE exchanges so that a by-exchange filter can name non-adjacent       *)
+(* exchanges (<<0, 2>>: the instruments it selects are not one contiguous   *)
+(* block), the exchange in the middle can be the one whose link is missing, *)
+(* and an exchange position that is off by one is still an exchange.        *)
 (*                                                                         *)
 (* The step is a FUNCTION of (state, event, env): env = what the            *)
 (* environment contributes in this step - fault state of each execution    *)
@@ -42,10 +48,10 @@ VARIABLES st,          \* engine state  [trading, conn, inst]
 
 vars == <<st, seq, tick, dl, last>>
 
-NEX   == 2
-NI    == 5
+NEX   == 3
+NI    == 6
 INST  == 0..(NI - 1)
-ExOf(i)  == IF i = 4 THEN 1 ELSE 0
+ExOf(i)  == CASE i = 4 -> 1 [] i = 5 -> 2 [] OTHER -> 0
 UndOf(i) == IF i = 1 THEN 0 ELSE i
 CLOSE == "x"
 
@@ -69,7 +75,7 @@ Ev(a, ex, inst, cid, kind, side, qty, ok, to, reqs, filter) ==
 NoEvent == Ev("Init", 0, 0, "", "", "-", 0, FALSE, "-", <<>>, NoFilter)
 
 Env(link, algoC, algoO, refuse) == [link |-> link, algoC |-> algoC, algoO |-> algoO, refuse |-> refuse]
-NoEnv == Env(<<"healthy", "healthy">>, <<>>, <<>>, <<>>)
+NoEnv == Env(<<"healthy", "healthy", "healthy">>, <<>>, <<>>, <<>>)
 
 Matches(f, i) ==
   CASE f.k = "None"        -> TRUE
@@ -229,9 +235,10 @@ Init == /\ st \in {StInit("Enabled"), StInit("Disabled")}
         /\ last = [ev |-> NoEvent, env |-> NoEnv]
 
 \* events must name tracked-able ids / existing instruments (environment assumption)
+\* (the step is bound through a singleton set: TLC re-evaluates a LET of an action at every reference)
 Process(ev, env) ==
-  LET r == Step(st, ev, env)
-  IN /\ st' = r.st
+  \E r \in {Step(st, ev, env)} :
+     /\ st' = r.st
      /\ tick' = [seq |-> seq, terminal |-> r.tick.terminal, errs |-> r.tick.errs, outputs |-> r.tick.outputs]
      /\ seq' = seq + 1
      /\ dl' = r.dl
